@@ -768,6 +768,10 @@ Definition exec_stmt (tl : string -> string -> option oracle)
       match fst rw with
       | VList l => norm (assign_ recv (VList (l ++ [fst aw])%list) ρ (snd aw))
       | _ => Stuck "append receiver" end
+  | SExpr (ECall (EAttr (ECall (EName "super") [EName c; EName sname] []) "__init__") args kws) =>
+      (* super(C, self).__init__(...): the base constructor is the global "super(C).__init__" of the program (which class that is, is part of the
+         function environment); it runs on self and the constructed object is written back to self *)
+      do vw <- ev (ECall (EAttr (EName ("super(" ++ c ++ ")")) "__init__") (EName sname :: args) kws) ρ w; norm (assign_ (EName sname) (fst vw) ρ (snd vw))
   | SExpr (ECall (EAttr (EName _) "__init__") (EName sname :: _) _ as e) =>
       (* Base.__init__(self, ...): the (functional) constructor result is written back to self *)
       do vw <- ev e ρ w; norm (assign_ (EName sname) (fst vw) ρ (snd vw))
